@@ -166,22 +166,25 @@ Print Assumptions C20_process_end_reported_once.
 
 (* The dispatcher / task-process protocol of DefaultWorker._dispatch around
    the request's timeout (Raptor.Race: the dispatcher's steps start, join,
-   lock, read res_done, is_alive, terminate, join, put, unlock and the task
-   process's steps call-ends, lock, put, set res_done, unlock, exit, as two
-   interleaved parties; the lock makes the dispatcher's check+act atomic).
-   For EVERY schedule -- every interleaving of these steps and every moment at
-   which the timeout expires -- and every way the call ends (returns, raises,
-   leaves the process, never ends; the last only with a timeout): both
+   lock, read res_done, is_alive, terminate, join(grace), is_alive, kill,
+   join, put, unlock and the task process's steps call-ends, lock, put, set
+   res_done, unlock, exit, as two interleaved parties; the lock makes the
+   dispatcher's check+act atomic).  For EVERY schedule -- every interleaving
+   of these steps, every moment at which the request's timeout and the grace
+   period expire -- every way the call ends (returns, raises, leaves the
+   process, never ends; the last only with a timeout) and every reaction of the
+   task process to SIGTERM (dies at once, dies later -- before or after the
+   grace period --, never; SIGKILL always works): both
    parties finish, exactly one result is queued, and it is truthful: the
    call's own result iff the task process queued it (exit code 0 iff the call
    returned), a time-out only if the process was killed before it reported,
    'process died' only if it ended by itself without reporting. *)
 Theorem C20_dispatch_protocol_one_truthful_result :
-  forall (p : pay) (timed : bool) (s : list choice),
+  forall (p : pay) (timed : bool) (sg : sigr) (s : list choice),
     allowed p timed = true ->
-    finished (fst (race p timed s)) = true /\
-    ok_one (c_q (fst (race p timed s))) = true /\
-    forallb (truthful_rk p (snd (race p timed s))) (c_q (fst (race p timed s))) = true.
+    finished (fst (race p timed sg s)) = true /\
+    ok_one (c_q (fst (race p timed sg s))) = true /\
+    forallb (truthful_rk p (snd (race p timed sg s))) (c_q (fst (race p timed sg s))) = true.
 Proof. exact race_ok. Qed.
 Print Assumptions C20_dispatch_protocol_one_truthful_result.
 
@@ -189,12 +192,26 @@ Print Assumptions C20_dispatch_protocol_one_truthful_result.
    result for one request) survives: it hands back the raced request and a
    LATER request, and all cores are free again. *)
 Theorem C20_dispatch_protocol_watcher_survives :
-  forall (p : pay) (timed : bool) (s : list choice),
+  forall (p : pay) (timed : bool) (sg : sigr) (s : list choice),
     allowed p timed = true ->
-    let '(st, evs, alive) := watcher wst2 (feed (c_q (fst (race p timed s)))) in
+    let '(st, evs, alive) := watcher wst2 (feed (c_q (fst (race p timed sg s)))) in
     alive = true /\ returned_uids evs = [1; 2] /\ w_cb st = [false; false] /\ w_pool st = [].
 Proof. exact race_then_watcher. Qed.
 Print Assumptions C20_dispatch_protocol_watcher_survives.
+
+(* Resources of a request are free only after its process is gone: at no point
+   of any schedule (`srun_race` = an arbitrary prefix, `race` = run to the end)
+   has the dispatcher queued a result -- on which _result_cb gives the request's
+   cores and GPUs back -- while the request's task process still existed
+   (`c_bad` records exactly that), whatever the payload does and however it
+   reacts to SIGTERM.  The task process's own report is queued by that process
+   after the call has ended.  Hence a later request is never started on a core
+   or GPU of a live task process: no two live task processes on one core. *)
+Theorem C20_reported_only_after_process_gone :
+  forall (p : pay) (timed : bool) (sg : sigr) (s : list choice),
+    c_bad (fst (srun_race p timed sg cinit s)) = false /\ c_bad (fst (race p timed sg s)) = false.
+Proof. exact race_never_reported_while_alive. Qed.
+Print Assumptions C20_reported_only_after_process_gone.
 
 (* Two-thread cases (request intake / _alloc against _result_cb / _dealloc,
    against another intake, against the completion of the request being
@@ -313,11 +330,23 @@ Proof. split; [intros _ k; reflexivity | vm_compute; reflexivity]. Qed.
    process has not exited yet, and adds nothing (the interleaving at which the
    code before /repo a0d9f2d queued a second, time-out, result) *)
 Example C20_protocol_nonvacuous :
-  race_show PayReturn true [CD; CT; CT; CX] =
+  race_show PayReturn true SigNow [CD; CT; CT; CX] =
   ([(PD, RoStart); (PT, RoFn); (PT, RoAcquire); (PD, RoExpire); (PD, RoJoin);
     (PT, RoPut RReal0); (PT, RoSet); (PT, RoRelease); (PD, RoAcquire);
     (PD, RoIsSet true); (PD, RoRelease); (PT, RoExit)],
-   [RReal0], true, [1; 2], true, [false; false]).
+   [RReal0], true, [1; 2], true, [false; false], false).
+Proof. vm_compute. reflexivity. Qed.
+
+(* ... and a payload that handles SIGTERM and then returns: the call ends after
+   the kill attempt, the task process waits for the result lock the dispatcher
+   holds, the grace period expires, SIGKILL, and only then the time-out is
+   reported (before /repo's grace-join + kill this schedule never ended) *)
+Example C20_protocol_sigterm_ignored_nonvacuous :
+  race_show PayReturn true SigNever [CD; CX] =
+  ([(PD, RoStart); (PD, RoExpire); (PD, RoJoin); (PD, RoAcquire); (PD, RoIsSet false);
+    (PD, RoIsAlive true); (PD, RoTerminate); (PT, RoFn); (PD, RoExpire2); (PD, RoJoin);
+    (PD, RoIsAlive true); (PD, RoKill); (PD, RoJoin); (PD, RoPut RTimeout); (PD, RoRelease)],
+   [RTimeout], true, [1; 2], true, [false; false], false).
 Proof. vm_compute. reflexivity. Qed.
 
 (* non-vacuity of the ending theorems: on a rank, a function request with an
